@@ -1,10 +1,10 @@
 (* Statements about the ECP part of the GAMESS-US writer / reader pair and about the whole file ($DATA section + $ECP
    section): what write_gamess_us prints, read_gamess_us reads back.  Definitions only; the proofs are in
    Proofs/GamessUsEcpSpec.v.
-   STATUS: the closed statements (findings, counterexamples, the store instance) are all proved; the general round-trip
-   statement gus_all_roundtrip_stmt is stated here, checked on the store instance (gus_ecp_example_stmt) and validated
-   against the Python code on seven store basis sets and fourteen damaged files, but NOT proved in general - it is not
-   among the lemmas of Proofs/GamessUsEcpSpec.v. *)
+   STATUS: everything is proved in Proofs/GamessUsEcpSpec.v: the general round-trip statement gus_all_roundtrip_stmt
+   (gus_all_roundtrip), the whole-file C04 statement gus_all_no_number_lost_stmt, and the closed statements (findings,
+   counterexamples, the store instance), which were also validated against the Python code on seven store basis sets and
+   fourteen damaged files. *)
 From BSE Require Import Model.Val Model.Text Model.Num Model.Basis Model.Manip Model.Matrix Model.Lut Model.Elements
                         Model.Nwchem Model.NwchemEcp Model.G94 Model.GamessUs Model.GamessUsEcp
                         Proofs.MatrixDefs Proofs.NwchemDefs Proofs.NwchemEcpDefs Proofs.GamessUsDefs.
@@ -58,9 +58,30 @@ Definition gus_ecp_expected (ecps : list (Z * (Z * list epot))) : gus_ecp_state 
 Definition gus_all_expected (els : list (Z * list sshell)) (ecps : list (Z * (Z * list epot))) : list (Z * gus_el) :=
   gus_assemble (gus_expected els) (gus_ecp_expected ecps).
 
-(* ---------- the general statement (NOT PROVED, see the header) ---------- *)
+(* ---------- the general statement (gus_all_roundtrip in Proofs/GamessUsEcpSpec.v) ---------- *)
 Definition gus_all_roundtrip_stmt : Prop :=
   forall els ecps, gus_all_ok els ecps -> gus_roundtrip_all els ecps = inr (gus_all_expected els ecps).
+
+(* the same, component by component: the electron part (gus_expected of Proofs/GamessUsDefs.v) and the ECP part *)
+Definition gus_all_roundtrip_parts_stmt : Prop :=
+  forall els ecps t, gus_all_ok els ecps -> gus_write_all els ecps = inr t ->
+    gus_read_all_parts (splitlines t) = inr (gus_expected els, gus_ecp_expected ecps).
+
+(* the writer does not fail on well-formed input: gus_wf (Proofs/GamessUsDefs.v: every momentum 0 .. 25) for the shells,
+   gus_ecp_ok for the potentials; the condition `els = [] -> ecps = []` of gus_all_ok is a condition of the READER *)
+Definition gus_all_write_total_stmt : Prop :=
+  forall els ecps, gus_wf els -> gus_ecp_ok ecps -> exists t, gus_write_all els ecps = inr t.
+
+(* C04 direction for the whole file: every number of the input - exponents and coefficients of the shells
+   (NwchemDefs.nw_number_of), gaussian exponents, coefficients, r exponents and electron counts of the ECP part, the integers
+   in decimal (NwchemEcpDefs.nw_ecp_number_of) - is a white-space delimited token of some line of the written text, unchanged.
+   NOTHING numeric is left out: terms with a zero coefficient are written too (it is the reader that drops them,
+   gus_ecp_zero_stmt).  What the writer does leave out is not a number: 'ecp_type', and for the shells region and function
+   type.  The highest momentum of the header line and the term count of a title line are derived, not input. *)
+Definition gus_all_no_number_lost_stmt : Prop :=
+  forall els ecps t, gus_wf els -> gus_ecp_ok ecps -> gus_write_all els ecps = inr t ->
+    forall x, nw_number_of els x \/ nw_ecp_number_of ecps x ->
+      exists line, In line (splitlines t) /\ In x (tokens_acc line "").
 
 (* ---------- findings and counterexamples (all proved, by computation) ---------- *)
 Definition gus_p (l : Z) : epot := mkEpot "scalar_ecp" [l] [2%Z; 1%Z] ["1.5"; "0.25"] [["-10.0"; "2.5E+00"]].
